@@ -63,9 +63,9 @@ type c19Shape struct {
 	methods []security.AuthMethod
 	enc     security.SecurityLevel
 	resumed bool
-	// the untampered exchange of this shape does not complete on the pinned tree
-	// (cedar's Go SSL client and Go SSL server disagree after the TLS rounds); the
-	// stall/cancel oracle applies to every I/O step it does reach
+	// the untampered exchange of this shape is allowed to fail (unused since /repo
+	// fix 42360c9 made cedar's SSL client and server interoperate); the stall/cancel
+	// oracle then applies to every I/O step the shape does reach
 	mayFailHonestly bool
 }
 
@@ -82,8 +82,9 @@ var c19Shapes = []c19Shape{
 	{"hs-token-plaintext/client", "client", security.SecurityRequired, []security.AuthMethod{mTOK}, security.SecurityNever, false, false},
 	{"hs-resumed/client", "client", security.SecurityRequired, []security.AuthMethod{mCTB}, security.SecurityRequired, true, false},
 	{"hs-resumed/server", "server", security.SecurityRequired, []security.AuthMethod{mCTB}, security.SecurityRequired, true, false},
-	{"hs-ssl/client", "client", security.SecurityRequired, []security.AuthMethod{security.AuthSSL}, security.SecurityNever, false, true},
-	{"hs-ssl/server", "server", security.SecurityRequired, []security.AuthMethod{security.AuthSSL}, security.SecurityNever, false, true},
+	{"hs-ssl/client", "client", security.SecurityRequired, []security.AuthMethod{security.AuthSSL}, security.SecurityNever, false, false},
+	{"hs-ssl/server", "server", security.SecurityRequired, []security.AuthMethod{security.AuthSSL}, security.SecurityNever, false, false},
+	{"hs-ssl-enc/client", "client", security.SecurityRequired, []security.AuthMethod{security.AuthSSL}, security.SecurityRequired, false, false},
 }
 
 type c19Out struct {
@@ -283,7 +284,7 @@ func C19Plan() *vlib.Plan {
 	p := &vlib.Plan{
 		Property: "C19", Level: "fault_enumeration",
 		Rule:   "E-FAULT over I/O steps: for each shape (plain send/receive, the same on an encrypted stream, typed exchange; client and server side of handshakes {no authentication + encryption, CLAIMTOBE, TOKEN, TOKEN without encryption, resumed session, SSL (TLS tunnelled through CEDAR messages, throw-away CA)}) a dry run counts the endpoint's connection operations N; for every k < N the k-th read/write blocks forever and, once the stall is entered, (a) the context is cancelled, (b) a harness-controlled deadline context expires (thorough: also a real 50 ms timeout); plus already-cancelled before the call, cancelled after completion, and a never-cancellable context. Oracle: the call returns (10 s watchdog, the only wall-clock judgement), with an error (errors.Is(err, ctx.Err()) for plain stream operations), the connection was closed; never-cancelled runs equal the baseline. Non-trivial = the stall point was reached.",
-		Assume: []string{"free-running (context.AfterFunc callbacks run on standard-library goroutines); FS/KERBEROS/SCITOKENS shapes excluded (need a mount namespace / a KDC / an issuer); on the pinned tree cedar's Go SSL client and server do not complete an SSL handshake with each other, so the SSL shapes are judged on the I/O steps they reach"},
+		Assume: []string{"free-running (context.AfterFunc callbacks run on standard-library goroutines); FS/KERBEROS/SCITOKENS shapes excluded (need a mount namespace / a KDC / an issuer)"},
 	}
 	p.Gen = func(tier string, yield func(vlib.Case)) {
 		counts := map[string]int{}
